@@ -1,18 +1,752 @@
 package main
 
+// C05 — emitted bytecode is well-formed and stack-balanced.
+//
+//  (a) correspondence of the compile model and the VM model with the real code (shared stages);
+//  (b) the kernel-checked-sound static checker `wfStatic` (Lean, driver stage `wfstatic`) is executed on
+//      every program the REAL compiler produces in the run: a certificate check on the artefact itself,
+//      independent of the compile model;
+//  (c) after every real run on a caller-owned VM: a successful run must leave an empty stack and no open
+//      scope; a pop of an empty stack / close of a missing scope is a violation;
+//  (d) explicitly generated large programs: jump offsets just below / at / above 65535 for `?:`, and/or,
+//      loop bodies (forward exit jump and backward jump), and programs with 65534…65537 distinct
+//      constants.  An oversized program must be rejected by Compile or be well-formed and run correctly.
+//      Their runs happen in a child process (a truncated backward jump loops forever with a growing stack).
+
+import (
+	"bytes"
+	"context"
+	"encoding/json"
+	"fmt"
+	"os"
+	"os/exec"
+	"reflect"
+	"runtime"
+	"strings"
+	"sync"
+	"time"
+
+	"github.com/antonmedv/expr/vm"
+)
+
+const c05KeyTrunc = "c05:jump-offset-truncated"
+
 func runC05(c *Ctx) {
 	r := c.R
-	r.Rule = "generated expressions (type-directed, all node kinds) x modes {Eval-like, Env struct/map, Optimize on/off, casts} x environments; compile model vs compiler.Compile byte for byte; VM model vs (*VM).Run"
+	r.Rule = "generated expressions (type-directed, all node kinds) x modes {Eval-like, Env struct/map, Optimize on/off, casts} x environments: compile model vs compiler.Compile byte for byte, VM model vs (*VM).Run, Lean wfStatic on every real program, Stack()/ScopeDepth() after every real run; plus generated large programs with jump offsets around 65535/65536 (?:, and/or, loop exit and backward jumps) and 65534..65537 distinct constants"
+	if c.Replay != "" {
+		if replayC05(c) {
+			return
+		}
+	}
 	n := 3000
 	if c.Thorough() {
 		n = 40000
 	}
+	t0 := time.Now()
+	lap := func(what string) {
+		r.Note("phase %s: %.1fs", what, time.Since(t0).Seconds())
+		t0 = time.Now()
+	}
 	cases := GenCases(c, n, 4, allModes, nil)
 	ok := CompileCorrespondence(c, cases)
+	lap("compile correspondence")
 	for _, cs := range cases {
 		r.Case(cs.Src+"|"+cs.Mode.String(), len(cs.Src) > 6)
 	}
-	VMCorrespondence(c, ok, 1000)
+	c05WfStaticReal(c, cases)
+	lap("wfStatic on real programs")
+	res := VMCorrespondence(c, ok, 1000)
+	// programs on which the compile model disagrees are still run and observed (independent of the model)
+	inOk := map[*Case]bool{}
+	for _, cs := range ok {
+		inOk[cs] = true
+	}
+	old := vm.MemoryBudget
+	vm.MemoryBudget = 1000
+	for _, cs := range cases {
+		if cs.B != nil && cs.B.Program != nil && !inOk[cs] {
+			res = append(res, &VMResult{Case: cs, Real: RunReal(&vm.VM{}, cs.B.Program, envVal(cs), cs.Env)})
+			r.Count("balance:unmodelled-runs", 1)
+		}
+	}
+	vm.MemoryBudget = old
+	c05BalanceCheck(c, res)
+	lap("vm correspondence + balance")
+	c05BigPrograms(c, c05BigSpecs(c.Thorough()))
+	lap("large programs")
+	for _, k := range []string{"wf:checked", "wf:jumps", "wf:scopes", "balance:ok-runs", "big:fits:ran", "big:oversize"} {
+		if r.Counters[k] == 0 {
+			r.Mismatch("generator", k, "counter must be non-zero", "0")
+		}
+	}
 }
 
-func init() { props["C05"] = runC05 }
+// ---------------------------------------------------------------- (b) wfStatic on real programs
+
+type c05RealIns struct {
+	Off int
+	Op  byte
+	Arg int
+}
+
+var c05OpHasArg = map[byte]bool{
+	vm.OpPush: true, vm.OpFetch: true, vm.OpFetchNilSafe: true, vm.OpFetchMap: true, vm.OpJump: true, vm.OpJumpIfTrue: true,
+	vm.OpJumpIfFalse: true, vm.OpJumpBackward: true, vm.OpMatchesConst: true, vm.OpProperty: true, vm.OpPropertyNilSafe: true,
+	vm.OpCall: true, vm.OpCallFast: true, vm.OpMethod: true, vm.OpMethodNilSafe: true, vm.OpCast: true, vm.OpStore: true,
+	vm.OpLoad: true, vm.OpInc: true,
+}
+
+func c05IsJump(op byte) bool {
+	return op == vm.OpJump || op == vm.OpJumpIfTrue || op == vm.OpJumpIfFalse || op == vm.OpJumpBackward
+}
+
+// c05DecodeReal: a plain linear walk (coverage counters and generator sanity only; the verdict is Lean's)
+func c05DecodeReal(p *vm.Program) []c05RealIns {
+	var out []c05RealIns
+	b := p.Bytecode
+	for ip := 0; ip < len(b); {
+		in := c05RealIns{Off: ip, Op: b[ip]}
+		ip++
+		if c05OpHasArg[in.Op] {
+			if ip+1 >= len(b) {
+				break
+			}
+			in.Arg = int(b[ip]) | int(b[ip+1])<<8
+			ip += 2
+		}
+		out = append(out, in)
+	}
+	return out
+}
+
+func c05WfAsk(c *Ctx, progs []*vm.Program) ([]string, error) {
+	lines := make([]string, len(progs))
+	for i, p := range progs {
+		lines[i] = T("wfstatic", programSx(p)).String()
+	}
+	return c.AskAll(lines)
+}
+
+func c05WfStaticReal(c *Ctx, cases []*Case) {
+	r := c.R
+	var progs []*vm.Program
+	var idx []*Case
+	for _, cs := range cases {
+		if cs.B != nil && cs.B.Program != nil {
+			progs = append(progs, cs.B.Program)
+			idx = append(idx, cs)
+		}
+	}
+	resp, err := c05WfAsk(c, progs)
+	if err != nil {
+		r.Mismatch("driver", "wfstatic", err.Error(), "")
+		return
+	}
+	for i, cs := range idx {
+		r.Count("wf:checked", 1)
+		for _, in := range c05DecodeReal(cs.B.Program) {
+			if c05IsJump(in.Op) {
+				r.Count("wf:jumps", 1)
+			}
+			if in.Op == vm.OpBegin {
+				r.Count("wf:scopes", 1)
+			}
+			if in.Op == vm.OpCast {
+				r.Count("wf:casts", 1)
+			}
+		}
+		if resp[i] == "true" {
+			continue
+		}
+		m, perr := ParseSx(resp[i])
+		if perr != nil || m.Tag() != "false" {
+			r.Mismatch("wfstatic", cs.Src+" ["+cs.Mode.String()+"]", resp[i], "unexpected response")
+			continue
+		}
+		reason := m.List[1].Atom
+		r.Violate(Violation{
+			What:   "the real compiler emitted a program the static checker rejects (" + reason + ")",
+			Key:    "c05:wfstatic:" + reason,
+			Input:  map[string]interface{}{"src": cs.Src, "mode": cs.Mode.String(), "bytecode": fmt.Sprintf("%x", cs.B.Program.Bytecode)},
+			Expect: "wfStatic = true (decodes, operands in range and of the expected kind, jumps on boundaries, Begin/End nested)",
+			Got:    resp[i],
+		})
+	}
+}
+
+// ---------------------------------------------------------------- (c) stack / scope balance after real runs
+
+func c05UnderflowMsg(err error) bool {
+	if err == nil {
+		return false
+	}
+	m := err.Error()
+	return strings.Contains(m, "index out of range [-1]") || strings.Contains(m, "slice bounds out of range [:-1]")
+}
+
+func c05BalanceCheck(c *Ctx, res []*VMResult) {
+	r := c.R
+	for _, vr := range res {
+		o := vr.Real
+		in := map[string]interface{}{"src": vr.Case.Src, "mode": vr.Case.Mode.String(), "env": valSx(envVal(vr.Case)).String()}
+		if o.Timeout {
+			continue
+		}
+		if o.Err == nil {
+			r.Count("balance:ok-runs", 1)
+			if o.StackLen != 0 || o.Scopes != 0 {
+				r.Violate(Violation{What: "a successful run left values on the stack or a loop scope open", Key: "c05:unbalanced-after-success",
+					Input: in, Expect: "Stack() empty and ScopeDepth() = 0 after a successful run", Got: fmt.Sprintf("stack=%d scopes=%d", o.StackLen, o.Scopes)})
+			}
+			continue
+		}
+		r.Count("balance:err-runs", 1)
+		if c05UnderflowMsg(o.Err) {
+			r.Violate(Violation{What: "a run popped an empty evaluation stack (or closed a scope that was not open)", Key: "c05:stack-underflow",
+				Input: in, Expect: "no run pops an empty stack", Got: o.Err.Error()})
+		}
+	}
+}
+
+// ---------------------------------------------------------------- (d) large programs
+
+type c05BigSpec struct {
+	Shape string `json:"shape"`
+	T     int    `json:"t"` // the jump offset aimed at (jump shapes) / number of distinct constants (shape consts)
+	Mode  Mode   `json:"mode"`
+	B     bool   `json:"b"`
+	I     int    `json:"i"`
+	Ints  []int  `json:"ints"`
+}
+
+func (s c05BigSpec) String() string {
+	return fmt.Sprintf("%s T=%d %s B=%v I=%d Ints=%v", s.Shape, s.T, s.Mode, s.B, s.I, s.Ints)
+}
+
+// balanced sum of n occurrences of `I` (4n-1 bytes of code: n OpFetch, n-1 OpAdd)
+func c05SumSrc(sb *strings.Builder, n int) {
+	if n == 1 {
+		sb.WriteString("I")
+		return
+	}
+	sb.WriteString("(")
+	c05SumSrc(sb, n/2)
+	sb.WriteString(" + ")
+	c05SumSrc(sb, n-n/2)
+	sb.WriteString(")")
+}
+
+// c05IntBody returns an int expression compiling to exactly L bytes (L >= 3) and its value as a function of I
+func c05IntBody(L int) (string, func(i int) int) {
+	k := (L + 1) % 4
+	n := (L + 1 - k) / 4
+	var sb strings.Builder
+	for j := 0; j < k; j++ {
+		sb.WriteString("-(")
+	}
+	c05SumSrc(&sb, n)
+	for j := 0; j < k; j++ {
+		sb.WriteString(")")
+	}
+	return sb.String(), func(i int) int {
+		v := n * i
+		if k%2 == 1 {
+			v = -v
+		}
+		return v
+	}
+}
+
+// shape table: source, the byte distance between body size L and the largest jump offset, expected value
+type c05BigProgram struct {
+	Src      string
+	Expect   interface{}
+	Oversize bool
+}
+
+func c05AnyInts(f func(x int) interface{}, xs []int) []interface{} {
+	out := make([]interface{}, 0, len(xs))
+	for _, x := range xs {
+		out = append(out, f(x))
+	}
+	return out
+}
+
+func c05BuildBig(s c05BigSpec) c05BigProgram {
+	body := func(delta int) (string, int) {
+		src, val := c05IntBody(s.T - delta)
+		return src, val(s.I)
+	}
+	over := s.T > 65535
+	switch s.Shape {
+	case "cond-then": // c; JumpIfFalse (1+L+3); Pop; body; Jump; Pop; 7
+		src, v := body(4)
+		e := interface{}(7)
+		if s.B {
+			e = v
+		}
+		return c05BigProgram{"B ? " + src + " : 7", e, over}
+	case "cond-else": // … Jump (1+L); Pop; body
+		src, v := body(1)
+		e := interface{}(v)
+		if s.B {
+			e = 7
+		}
+		return c05BigProgram{"B ? 7 : " + src, e, over}
+	case "and": // l; JumpIfFalse (1 + L+3+1); Pop; body; Push 0; Equal
+		src, v := body(5)
+		return c05BigProgram{"B and (" + src + " == 0)", s.B && v == 0, over}
+	case "or":
+		src, v := body(5)
+		return c05BigProgram{"B or (" + src + " == 0)", s.B || v == 0, over}
+	case "map-back": // backward jump = 7 + 3 + (1 + L + 3) + 3
+		src, v := body(17)
+		return c05BigProgram{"map(Ints, {" + src + "})", c05AnyInts(func(int) interface{} { return v }, s.Ints), over}
+	case "map-exit": // exit jump = (1 + L + 3) + 3; the backward jump is 10 larger
+		src, v := body(7)
+		return c05BigProgram{"map(Ints, {" + src + "})", c05AnyInts(func(int) interface{} { return v }, s.Ints), s.T+10 > 65535}
+	case "filter-back": // body = L+4 (== 0) + emitCond(Inc, Load, Load, Index) = L+22; back = L+39
+		src, v := body(39)
+		var keep []interface{}
+		for _, x := range s.Ints {
+			if v == 0 {
+				keep = append(keep, x)
+			}
+		}
+		if keep == nil {
+			keep = []interface{}{}
+		}
+		return c05BigProgram{"filter(Ints, {" + src + " == 0})", keep, over}
+	case "count-back": // body = L+4 + emitCond(Inc) = L+15; back = L+32
+		src, v := body(32)
+		n := 0
+		if v == 0 {
+			n = len(s.Ints)
+		}
+		return c05BigProgram{"count(Ints, {" + src + " == 0})", n, over}
+	case "all-back": // body = L+4 + JumpIfFalse + Pop = L+8; back = L+25
+		src, v := body(25)
+		return c05BigProgram{"all(Ints, {" + src + " == 0})", len(s.Ints) == 0 || v == 0, over}
+	case "consts": // T distinct constants: the elements 0..T-2 and the length T-1
+		var sb strings.Builder
+		sb.WriteString("[")
+		exp := make([]interface{}, 0, s.T-1)
+		for i := 0; i < s.T-1; i++ {
+			if i > 0 {
+				sb.WriteString(",")
+			}
+			fmt.Fprintf(&sb, "%d", i)
+			exp = append(exp, i)
+		}
+		sb.WriteString("]")
+		return c05BigProgram{sb.String(), exp, s.T > 65535}
+	}
+	panic("shape " + s.Shape)
+}
+
+func c05BigSpecs(thorough bool) []c05BigSpec {
+	typed := Mode{Env: "struct", Optimize: false}
+	opt := Mode{Env: "struct", Optimize: true}
+	untyped := Mode{Env: "none"}
+	var out []c05BigSpec
+	add := func(shape string, m Mode, ts ...int) {
+		for _, t := range ts {
+			if shape == "consts" {
+				out = append(out, c05BigSpec{shape, t, m, false, 0, nil})
+				continue
+			}
+			for _, b := range []bool{false, true} {
+				i, ints := 0, []int{4, 5}
+				if b {
+					i = 3
+				}
+				out = append(out, c05BigSpec{shape, t, m, b, i, ints})
+			}
+		}
+	}
+	if !thorough {
+		add("cond-then", typed, 88015, 65535, 65536)
+		add("cond-else", untyped, 65535, 65536)
+		add("and", opt, 65535, 65536)
+		add("or", typed, 65536)
+		add("map-back", typed, 65535, 65536)
+		add("map-exit", typed, 65525, 65536)
+		add("filter-back", untyped, 65536)
+		add("count-back", opt, 65535)
+		add("all-back", typed, 65536)
+		add("consts", untyped, 65535, 65536)
+		return out
+	}
+	ts := []int{65533, 65534, 65535, 65536, 65537, 65538, 70000, 88015, 131071, 131072, 131075, 200000}
+	for _, m := range []Mode{typed, opt, untyped, {Env: "map", Optimize: true}, {Env: "struct", Optimize: true, Cast: "int64"}} {
+		for _, sh := range []string{"cond-then", "cond-else", "and", "or", "map-back", "map-exit", "filter-back", "count-back", "all-back"} {
+			if m.Cast != "" && sh != "cond-then" && sh != "cond-else" && sh != "count-back" {
+				continue
+			}
+			add(sh, m, ts...)
+		}
+	}
+	add("consts", untyped, 65534, 65535, 65536, 65537)
+	add("consts", typed, 65534, 65535, 65536, 65537)
+	return out
+}
+
+func c05BigEnv(s c05BigSpec) *Env {
+	k := 0
+	e := NewEnv(0, func(n int) int { k++; return k % n })
+	e.B, e.I, e.Ints = s.B, s.I, s.Ints
+	return e
+}
+
+type c05ChildOut struct {
+	CompileErr string `json:"compile_err"`
+	Ran        bool   `json:"ran"`
+	Val        string `json:"val"`
+	Err        string `json:"err"`
+	StackLen   int    `json:"stack_len"`
+	Scopes     int    `json:"scopes"`
+	Aborted    string `json:"aborted"` // "timeout" | "runaway-memory"
+}
+
+// child mode: `harness c05-child` reads a c05BigSpec on stdin, builds and runs it, prints a c05ChildOut
+func init() {
+	props["C05"] = runC05
+	if len(os.Args) > 1 && os.Args[1] == "c05-child" {
+		c05Child()
+		os.Exit(0)
+	}
+}
+
+func c05Child() {
+	var s c05BigSpec
+	if err := json.NewDecoder(os.Stdin).Decode(&s); err != nil {
+		fmt.Println(`{"compile_err":"bad spec"}`)
+		return
+	}
+	out := c05ChildOut{}
+	emit := func() {
+		b, _ := json.Marshal(out)
+		os.Stdout.Write(b)
+		os.Exit(0)
+	}
+	env := c05BigEnv(s)
+	bp := c05BuildBig(s)
+	b := BuildReal(bp.Src, s.Mode, env)
+	if b.Program == nil {
+		out.CompileErr = b.Stage + ": " + b.Err.Error()
+		emit()
+	}
+	var ev interface{} = env
+	if s.Mode.Env == "map" {
+		ev = env.AsMap()
+	}
+	machine := &vm.VM{}
+	done := make(chan struct{})
+	var val interface{}
+	var rerr error
+	go func() {
+		defer close(done)
+		defer func() {
+			if r := recover(); r != nil {
+				rerr = fmt.Errorf("PANIC-ESCAPED: %v", r)
+			}
+		}()
+		val, rerr = machine.Run(b.Program, ev)
+	}()
+	tick := time.NewTicker(10 * time.Millisecond)
+	deadline := time.After(10 * time.Second) // counted from the start of Run only (the build is already done)
+	for {
+		select {
+		case <-done:
+			out.Ran = true
+			if rerr != nil {
+				out.Err = rerr.Error()
+			} else {
+				out.Val = valSx(val).String()
+			}
+			out.StackLen = len(machine.Stack())
+			out.Scopes = machine.ScopeDepth()
+			emit()
+		case <-deadline:
+			out.Aborted = "timeout"
+			emit()
+		case <-tick.C:
+			var ms runtime.MemStats
+			runtime.ReadMemStats(&ms)
+			if ms.HeapAlloc > 1<<30 {
+				out.Aborted = "runaway-memory"
+				emit()
+			}
+		}
+	}
+}
+
+func c05RunChild(s c05BigSpec) (*c05ChildOut, error) {
+	self, err := os.Executable()
+	if err != nil {
+		return nil, err
+	}
+	ctx, cancel := context.WithTimeout(context.Background(), 180*time.Second)
+	defer cancel()
+	cmd := exec.CommandContext(ctx, self, "c05-child")
+	in, _ := json.Marshal(s)
+	cmd.Stdin = bytes.NewReader(in)
+	var stdout, stderr bytes.Buffer
+	cmd.Stdout, cmd.Stderr = &stdout, &stderr
+	if err := cmd.Run(); err != nil {
+		if ctx.Err() != nil {
+			// the whole child (build included) did not finish: an overloaded machine, not a verdict
+			return nil, fmt.Errorf("child process killed after 180 s (machine overloaded?)")
+		}
+		return &c05ChildOut{Aborted: "crashed: " + err.Error() + " " + c05Tail(stderr.String(), 300)}, nil
+	}
+	var out c05ChildOut
+	if err := json.Unmarshal(stdout.Bytes(), &out); err != nil {
+		return nil, fmt.Errorf("child output: %v: %s", err, c05Tail(stdout.String(), 300))
+	}
+	return &out, nil
+}
+
+func c05Head(s string, n int) string {
+	if len(s) > n {
+		return s[:n]
+	}
+	return s
+}
+
+func c05Tail(s string, n int) string {
+	if len(s) > n {
+		return s[len(s)-n:]
+	}
+	return s
+}
+
+func c05MaxJumpOperand(p *vm.Program) int {
+	m := -1
+	for _, in := range c05DecodeReal(p) {
+		if c05IsJump(in.Op) && in.Arg > m {
+			m = in.Arg
+		}
+	}
+	return m
+}
+
+// stripped program for the wfstatic stage: the location table is not part of well-formedness
+func c05WfLine(p *vm.Program) string {
+	q := *p
+	q.Locations = nil
+	return T("wfstatic", programSx(&q)).String()
+}
+
+func c05BigPrograms(c *Ctx, specs []c05BigSpec) {
+	r := c.R
+	type prog struct {
+		s        c05BigSpec
+		bp       c05BigProgram
+		cs       *Case
+		wf       string
+		wfErr    error
+		modelled bool
+	}
+	type item struct {
+		s     c05BigSpec
+		p     *prog
+		child *c05ChildOut
+		cerr  error
+	}
+	progs := map[string]*prog{}
+	var order []*prog
+	items := make([]*item, len(specs))
+	for i, s := range specs {
+		key := fmt.Sprintf("%s|%d|%s", s.Shape, s.T, s.Mode)
+		p := progs[key]
+		if p == nil {
+			p = &prog{s: s, bp: c05BuildBig(s)}
+			p.cs = &Case{Src: p.bp.Src, Mode: s.Mode, Env: c05BigEnv(s)}
+			progs[key] = p
+			order = append(order, p)
+		}
+		items[i] = &item{s: s, p: p}
+	}
+	// real runs in child processes, in parallel
+	var wg sync.WaitGroup
+	sem := make(chan struct{}, 6)
+	for _, it := range items {
+		wg.Add(1)
+		go func(it *item) {
+			defer wg.Done()
+			sem <- struct{}{}
+			it.child, it.cerr = c05RunChild(it.s)
+			<-sem
+		}(it)
+	}
+	// meanwhile, per distinct program: real build here; wfStatic on the real bytecode; the compile model on a
+	// subset in the quick tier (the driver needs seconds per megabyte of request), on all in the thorough tier
+	dsem := make(chan struct{}, 8)
+	for _, p := range order {
+		p.modelled = c.Thorough() || (p.s.T == 65536 && (p.s.Shape == "cond-then" || p.s.Shape == "map-back"))
+		wg.Add(1)
+		go func(p *prog) {
+			defer wg.Done()
+			dsem <- struct{}{}
+			defer func() { <-dsem }()
+			tp := time.Now()
+			defer func() { r.Note("big %s T=%d: driver work %.1fs", p.s.Shape, p.s.T, time.Since(tp).Seconds()) }()
+			if p.modelled {
+				CompileCorrespondence(c, []*Case{p.cs})
+				r.Count("big:compile-modelled", 1)
+			} else {
+				p.cs.B = BuildReal(p.cs.Src, p.cs.Mode, p.cs.Env)
+			}
+			if p.cs.B.Program != nil {
+				resp, err := c.AskAll([]string{c05WfLine(p.cs.B.Program)})
+				p.wfErr = err
+				if err == nil {
+					p.wf = resp[0]
+				}
+			}
+		}(p)
+	}
+	tw := time.Now()
+	wg.Wait()
+	r.Note("big: all children and driver calls done after %.1fs", time.Since(tw).Seconds())
+	for _, p := range order {
+		r.Case("big|"+p.s.Shape+fmt.Sprintf("|%d|", p.s.T)+p.s.Mode.String(), true)
+	}
+	for _, it := range items {
+		s, bp, b := it.s, c05BuildExpect(it.s, it.p.bp), it.p.cs.B
+		bp.Expect = c05CastExpect(s, bp.Expect)
+		expectTxt := "Compile rejects the program, or it is well-formed and the run returns " + c05Head(valSx(bp.Expect).String(), 60) + " with an empty stack"
+		key := c05KeyTrunc
+		what := "a jump offset above 65535 is silently truncated to 16 bits by patchJump/calcBackwardJump: the emitted jump does not reach its intended target"
+		if s.Shape == "consts" {
+			key, what = "c05:constant-index-overflow", "a program with more constants than a 16-bit index can name is neither rejected nor correct"
+		}
+		if !bp.Oversize {
+			key, what = "c05:large-program-broken", "a large program whose offsets all fit 16 bits misbehaves"
+			expectTxt = "the program compiles, is well-formed and the run returns " + c05Head(valSx(bp.Expect).String(), 60) + " with an empty stack"
+		}
+		viol := func(got string) {
+			r.Violate(Violation{What: what, Key: key, Input: map[string]interface{}{"big": s, "src_len": len(bp.Src), "src_head": c05Head(bp.Src, 60)},
+				Expect: expectTxt, Got: got})
+		}
+		if bp.Oversize {
+			r.Count("big:oversize", 1)
+		} else {
+			r.Count("big:fits", 1)
+		}
+		if it.cerr != nil {
+			r.Mismatch("harness", "child "+s.String(), it.cerr.Error(), "")
+			continue
+		}
+		if it.p.wfErr != nil {
+			r.Mismatch("driver", "wfstatic(big) "+s.String(), it.p.wfErr.Error(), "")
+			continue
+		}
+		if b.Program == nil {
+			if b.Stage != "compile" {
+				r.Mismatch("generator", "big "+s.String(), "stage "+b.Stage, b.Err.Error())
+				continue
+			}
+			if bp.Oversize {
+				r.Count("big:oversize:rejected", 1)
+			} else {
+				viol("Compile error: " + b.Err.Error())
+			}
+			continue
+		}
+		// generator sanity: at the aimed offset the largest jump operand is the aimed one
+		if s.Shape != "consts" && s.T <= 65535 {
+			want := s.T
+			if s.Shape == "map-exit" {
+				want = s.T + 10
+			}
+			if got := c05MaxJumpOperand(b.Program); got != want {
+				r.Mismatch("generator", "big "+s.String(), fmt.Sprintf("largest jump operand %d", want), fmt.Sprint(got))
+			}
+		}
+		if s.Shape == "consts" && len(b.Program.Constants) != s.T {
+			r.Mismatch("generator", "big "+s.String(), fmt.Sprintf("%d constants", s.T), fmt.Sprint(len(b.Program.Constants)))
+		}
+		var got []string
+		if w := it.p.wf; w != "true" {
+			got = append(got, "wfStatic(real bytecode, "+fmt.Sprint(len(b.Program.Bytecode))+" bytes) = "+w)
+		}
+		ch := it.child
+		switch {
+		case ch.CompileErr != "":
+			r.Mismatch("harness", "child "+s.String(), "compiled in the parent", ch.CompileErr)
+		case ch.Aborted != "":
+			got = append(got, "run aborted: "+ch.Aborted)
+		case ch.Err != "":
+			e := strings.ReplaceAll(c05Head(ch.Err, 90), "\n", " ")
+			if c05UnderflowMsg(fmt.Errorf("%s", ch.Err)) {
+				e += " (pop of an empty stack)"
+			}
+			got = append(got, "run error: "+e)
+		default:
+			if ch.Val != valSx(bp.Expect).String() {
+				got = append(got, "run returned "+c05Head(ch.Val, 80)+" instead of "+c05Head(valSx(bp.Expect).String(), 80))
+			}
+			if ch.StackLen != 0 || ch.Scopes != 0 {
+				got = append(got, fmt.Sprintf("after the run stack=%d scopes=%d", ch.StackLen, ch.Scopes))
+			}
+		}
+		if len(got) > 0 {
+			viol(strings.Join(got, "; "))
+			continue
+		}
+		if bp.Oversize {
+			r.Count("big:oversize:correct", 1)
+		} else {
+			r.Count("big:fits:ran", 1)
+		}
+	}
+}
+
+// the expected value depends on the environment of the individual run, the source does not
+func c05BuildExpect(s c05BigSpec, shared c05BigProgram) c05BigProgram {
+	if s.Shape == "consts" {
+		return shared
+	}
+	bp := c05BuildBig(s)
+	bp.Src = shared.Src
+	return bp
+}
+
+// AsInt64(): the compiled program ends with OpCast 0
+func c05CastExpect(s c05BigSpec, v interface{}) interface{} {
+	if i, ok := v.(int); ok && s.Mode.Cast == "int64" && s.Mode.Env != "none" {
+		return int64(i)
+	}
+	return v
+}
+
+// replayC05 re-runs the single large program named by a replay file; false = not a large-program replay
+func replayC05(c *Ctx) bool {
+	raw, err := os.ReadFile(c.Replay)
+	if err != nil {
+		// bin/check runs the harness from harness/: a path relative to the checkout root
+		raw, err = os.ReadFile("../" + c.Replay)
+	}
+	if err != nil {
+		return false
+	}
+	var f struct {
+		Violation struct {
+			Input struct {
+				Big *c05BigSpec `json:"big"`
+			} `json:"input"`
+		} `json:"violation"`
+	}
+	if json.Unmarshal(raw, &f) != nil || f.Violation.Input.Big == nil {
+		return false
+	}
+	s := *f.Violation.Input.Big
+	if reflect.DeepEqual(s, c05BigSpec{}) {
+		return false
+	}
+	c05BigPrograms(c, []c05BigSpec{s})
+	return true
+}
